@@ -28,6 +28,18 @@ Fixpoint gw_pick (arcs : list arc) (diff : Z) : option arc :=
   | a :: r => if a_step a * a_n a >=? diff then Some a else gw_pick r diff
   end.
 
+(** fetchFromArchive (classic format) *)
+Definition gw_fetch_archive (a : arc) (from until : Z) : series :=
+  let fi := gw_interval (a_step a) from in
+  let ui := gw_interval (a_step a) until in
+  let base := base_interval a in
+  if base =? 0 then mkSeries fi ui (a_step a) (repeat NaN (Z.to_nat ((ui - fi) / a_step a)))
+  else
+    let ui := if fi =? ui then ui + a_step a else ui in
+    let ps := gw_read_series a (gw_point_index a base fi) (gw_point_index a base ui) in
+    mkSeries fi ui (a_step a) (gw_values ps fi (a_step a)).
+
+(** Fetch / FetchByAggregation *)
 Definition gw_fetch (arcs : list arc) (maxret from until now : Z) : gw_res :=
   if from >? until then GwErr
   else
@@ -39,15 +51,7 @@ Definition gw_fetch (arcs : list arc) (maxret from until now : Z) : gw_res :=
       let until := if until >? now then now else until in
       match gw_pick arcs (now - from) with
       | None => GwErr
-      | Some a =>
-        let fi := gw_interval (a_step a) from in
-        let ui := gw_interval (a_step a) until in
-        let base := base_interval a in
-        if base =? 0 then GwSeries (mkSeries fi ui (a_step a) (repeat NaN (Z.to_nat ((ui - fi) / a_step a))))
-        else
-          let ui := if fi =? ui then ui + a_step a else ui in
-          let ps := gw_read_series a (gw_point_index a base fi) (gw_point_index a base ui) in
-          GwSeries (mkSeries fi ui (a_step a) (gw_values ps fi (a_step a)))
+      | Some a => GwSeries (gw_fetch_archive a from until)
       end.
 
 (** the reference reader applied to the bytes of a file *)
